@@ -2009,7 +2009,7 @@ void MatrixGetMaxValueIndex(matrix* m, size_t* row, size_t* col)
   best_value = m->data[0][0];
 
   for(j = 0; j < m->col; j++){
-    for(i = 1; i < m->row; i++){
+    for(i = 0; i < m->row; i++){
       tmp_value = m->data[i][j];
       if(tmp_value > best_value || FLOAT_EQ(tmp_value, best_value, EPSILON)){
         best_value = tmp_value;
@@ -2040,7 +2040,7 @@ void MatrixGetMinValueIndex(matrix* m, size_t* row, size_t* col)
   best_value = m->data[0][0];
 
   for(j = 0; j < m->col; j++){
-    for(i = 1; i < m->row; i++){
+    for(i = 0; i < m->row; i++){
       tmp_value = m->data[i][j];
       if(tmp_value < best_value || FLOAT_EQ(tmp_value, best_value, EPSILON)){
         best_value = tmp_value;
